@@ -823,6 +823,58 @@ def viol(run, name, text):
         run.violation(run.replay('%s-%d.txt' % (name, len(run.violations)), text), False)
 
 
+def spec_reader_tie(run, ctx, env, lines, c_out, rnd, tally):
+    """Spec/WireMsg.v's reference reader against libprotobuf's schema-less reader (UnknownFieldSet) on the bytes
+    protobuf-c packed, on prefixes of them, and against the records the message denotes (Impl/Denote.v) where the
+    whole-message theorem applies (env_ok, canonical)."""
+    import refnorm
+    hexes = [refnorm.pack_hex(o) for o in c_out]
+    idx = [i for i, h in enumerate(hexes) if h is not None]
+    if not idx:
+        return
+    cuts = []
+    for i in idx:
+        h = hexes[i]
+        n = len(h) // 2
+        if n >= 2:
+            k = rnd.randrange(1, n)
+            cuts.append(h[:2 * k])
+    byts = [hexes[i] for i in idx] + cuts
+    m_lines = ['SREAD %s' % (h or '-') for h in byts] + ['RECS ' + lines[i].split(' ', 1)[1] for i in idx] + \
+              ['WFCANON ' + lines[i].split(' ', 1)[1] for i in idx]
+    rc, m_out, m_err = run_driver(ctx.model, env.text() + '\n'.join(m_lines) + '\n', 'c03s')
+    r_out, r_err = run_ref(ctx, env, ['RAW %s' % (h or '-') for h in byts], 'c03w')
+    if len(m_out) != len(m_lines) or len(r_out) != len(byts):
+        viol(run, 'disagreement', 'spec-reader tie: a driver did not answer every line (model %d/%d, reference %d/%d)\n%s\n%s'
+             % (len(m_out), len(m_lines), len(r_out), len(byts), m_err[-1500:], r_err[-1500:]))
+        return
+    nb, ni = len(byts), len(idx)
+    for j, h in enumerate(byts):
+        tally['spec_reader_inputs'] += 1
+        if ':3:G' in r_out[j]:
+            tally['spec_reader_groups_skipped'] += 1
+            continue
+        if m_out[j] != r_out[j]:
+            viol(run, 'disagreement', "Spec/WireMsg.v's reference reader and libprotobuf's schema-less reader disagree on these bytes (%s)\n--- bytes\n%s\n--- model (SREAD)\n%s\n--- libprotobuf (RAW)\n%s\n"
+                 % ('packed by protobuf-c' if j < ni else 'a prefix of what protobuf-c packed', h, m_out[j][:3000], r_out[j][:3000]))
+        else:
+            tally['spec_reader_agrees_with_libprotobuf'] += 1
+            if m_out[j] == 'R -':
+                tally['spec_reader_both_reject'] += 1
+    for k, i in enumerate(idx):
+        w = m_out[nb + ni + k].split()
+        in_domain = len(w) == 4 and w[2] == '1' and w[3] == '1'
+        if not in_domain:
+            tally['outside_whole_message_theorem'] += 1
+            continue
+        tally['whole_message_theorem_domain'] += 1
+        if m_out[nb + k] != m_out[k] or m_out[nb + k] != r_out[k]:
+            viol(run, 'disagreement', 'the records a canonical message denotes (Impl/Denote.v) are not what the reference readers find in the bytes protobuf-c packed\n--- schema + case\n%s%s\n--- bytes\n%s\n--- records denoted (RECS)\n%s\n--- model reader (SREAD)\n%s\n--- libprotobuf (RAW)\n%s\n'
+                 % (env.text(), lines[i], hexes[i], m_out[nb + k][:3000], m_out[k][:3000], r_out[k][:3000]))
+        else:
+            tally['records_equal_reader_equal_libprotobuf'] += 1
+
+
 def check_C03(tier, seed):
     import refnorm
     run = Run('C03', tier, seed)
@@ -832,7 +884,9 @@ def check_C03(tier, seed):
     st = Stats()
     envs = envs_for(rnd, tier, 12, 100)
     per_env = 40 if tier == 'quick' else 120
-    tally = {'pack_bytes_identical': 0, 'reference_reads_back_original': 0, 'cases': 0}
+    tally = {'pack_bytes_identical': 0, 'reference_reads_back_original': 0, 'cases': 0, 'spec_reader_inputs': 0,
+             'spec_reader_agrees_with_libprotobuf': 0, 'spec_reader_both_reject': 0, 'spec_reader_groups_skipped': 0,
+             'whole_message_theorem_domain': 0, 'outside_whole_message_theorem': 0, 'records_equal_reader_equal_libprotobuf': 0}
     for env in envs:
         st.schemas += 1
         lines, msgs = stream_pack(rnd, env, st, per_env, canon=True)
@@ -848,6 +902,7 @@ def check_C03(tier, seed):
         u_out, u_err = run_ref(ctx, env, ul, 'c03u')
         if r_out[:1] and r_out[0].startswith('ENVERR'):
             run.notes.append('reference cannot express a generated schema: ' + r_out[0]); continue
+        spec_reader_tie(run, ctx, env, lines, c_out, rnd, tally)
         for i, l in enumerate(lines):
             tally['cases'] += 1
             ch = refnorm.pack_hex(c_out[i])
